@@ -151,6 +151,15 @@ def scripts_for(pid, tier, seed, fx):
                     add([f], [{"op": "call", "f": f, "t": t, "k": k} for (t, k) in s]
                         + [{"op": "call", "f": f, "t": 3, "k": 1}, {"op": "call", "f": f, "t": 3, "k": 2}], threads=3)
             rnd([tf, sf, af], 150 if thorough else 3, 100, threads=4, nkeys=4)
+            if pol in ("lru2", "arc2", "tlru2", "lfu2"):
+                # a full shared cache, hits spread over two threads, then a store by a third: the victim
+                # depends on the shared use history only
+                for f in (sf, af):
+                    for s in seqs([(1, 1), (1, 2), (2, 1), (2, 2)], 4 if thorough else 3):
+                        add([f], [{"op": "call", "f": f, "t": 1, "k": 1}, {"op": "call", "f": f, "t": 2, "k": 2}]
+                            + [{"op": "call", "f": f, "t": t, "k": k} for (t, k) in s]
+                            + [{"op": "call", "f": f, "t": 3, "k": 3}, {"op": "call", "f": f, "t": 1, "k": 1},
+                               {"op": "call", "f": f, "t": 2, "k": 2}], threads=3)
         for tf in ("t_mem_lru", "t_mem_fifo", "t_mem_lfu", "t_mem_arc_l3"):
             for s in seqs([(1, 1), (1, 2), (1, 3), (2, 1), (2, 4), (3, 1)], 5 if thorough else 4):
                 add([tf], [{"op": "call", "f": tf, "t": t, "k": k, "size": 40} for (t, k) in s]
